@@ -41,6 +41,9 @@ type concState struct {
 	cur     *thread
 	kill    chan struct{}
 	sched   []uint64 // decisions taken (for reporting)
+
+	last        *thread // thread that ran the previous step
+	preemptions int
 }
 
 // chooseFree forks over n alternatives that are all possible regardless of data (schedule
@@ -186,8 +189,26 @@ func (m *Machine) par(fns []Value) {
 			m.stack = parentStack
 			panic(goPanic{V: "deadlock", Desc: "deadlock: every unfinished thread waits for a lock", Site: m.pos()})
 		}
-		k := m.chooseFree(len(runnable))
-		t := runnable[k]
+		// Preemption bound (Cfg.Preempt >= 0): switching away from a thread that could have
+		// continued is a preemption; once the budget is spent the running thread keeps the
+		// processor until it blocks or finishes. Switches at blocking points are free.
+		lastIdx := -1
+		for i, t := range runnable {
+			if t == cs.last {
+				lastIdx = i
+			}
+		}
+		var t *thread
+		if m.Cfg.Preempt >= 0 && lastIdx >= 0 && cs.preemptions >= m.Cfg.Preempt {
+			t = runnable[lastIdx]
+		} else {
+			k := m.chooseFree(len(runnable))
+			t = runnable[k]
+			if lastIdx >= 0 && k != lastIdx {
+				cs.preemptions++
+			}
+		}
+		cs.last = t
 		cs.cur = t
 		t.resume <- struct{}{}
 		msg := <-t.out
